@@ -168,6 +168,10 @@ func newScratch(keep bool) *scratch {
 		s.cleanup()
 		fatal2("copying %s failed: %s", repoDir, out)
 	}
+	if err := mkMainlib(s.repo); err != nil {
+		s.cleanup()
+		fatal2("generating client/mainlib failed: %v", err)
+	}
 	var dirs []string
 	for _, p := range instrPkgs {
 		if st, err := os.Stat(filepath.Join(s.repo, p)); err == nil && st.IsDir() {
@@ -188,6 +192,74 @@ func newScratch(keep bool) *scratch {
 	}
 	os.WriteFile(filepath.Join(d, "harness.sum"), sum, 0644)
 	return s
+}
+
+// mkMainlib makes the client's package main importable in the scratch copy: client/{main,init,logfile}.go are
+// copied to client/mainlib with the package clause changed (func main -> func Main), plus a file that exports
+// the unexported entry points the harnesses drive (start-up replay of stored blocks, cached-block retry) and a
+// reset of the package-level state.  The code itself is unchanged and instrumented like the other packages.
+func mkMainlib(repo string) error {
+	src := filepath.Join(repo, "client")
+	dst := filepath.Join(src, "mainlib")
+	if err := os.MkdirAll(dst, 0755); err != nil {
+		return err
+	}
+	for _, f := range []string{"main.go", "init.go", "logfile.go"} {
+		b, err := os.ReadFile(filepath.Join(src, f))
+		if err != nil {
+			return err
+		}
+		t := string(b)
+		if !strings.Contains(t, "\npackage main\n") && !strings.HasPrefix(t, "package main\n") {
+			return fmt.Errorf("%s: no 'package main' clause", f)
+		}
+		t = strings.Replace(t, "package main\n", "package mainlib\n", 1)
+		if f == "main.go" {
+			if !strings.Contains(t, "\nfunc main() {") {
+				return fmt.Errorf("main.go: func main not found")
+			}
+			t = strings.Replace(t, "\nfunc main() {", "\nfunc Main() {", 1)
+		}
+		if err := os.WriteFile(filepath.Join(dst, f), []byte(t), 0644); err != nil {
+			return err
+		}
+	}
+	exp := `package mainlib
+
+import (
+	"time"
+
+	"github.com/piotrnar/gocoin/lib/btc"
+	"github.com/piotrnar/gocoin/lib/chain"
+	"github.com/piotrnar/gocoin/lib/others/sys"
+)
+
+// generated by vcheck (verification harness): exported handles on the client's own, unchanged functions
+
+func DoTheBlocks(end *chain.BlockTreeNode) { do_the_blocks(end) }
+func RetryCachedBlocks() bool               { return retry_cached_blocks() }
+func HostInit()                             { host_init() }
+func BlockMinedCB(bl *btc.Block)            { blockMined(bl) }
+func BlockUndoneCB(bl *btc.Block)           { blockUndone(bl) }
+func RetryFlag() bool                       { return retryCachedBlocks }
+
+// MainLoopRetry is the head of the client's main loop: "if retryCachedBlocks { retryCachedBlocks = retry_cached_blocks() ... }"
+func MainLoopRetry() {
+	if retryCachedBlocks {
+		retryCachedBlocks = retry_cached_blocks()
+	}
+}
+
+// ResetForSim gives the package-level state the values a new process starts with (timers are re-made so that
+// they belong to the current simulation bubble).
+func ResetForSim() {
+	SaveBlockChain = time.NewTimer(1<<63 - 1)
+	NetBlocksSize = sys.SyncInt{}
+	highestAcceptedBlock, retryCachedBlocks, syncDoneAnnounced = 0, false, false
+	lastDefragDone, lastMapDefragDone = time.Time{}, time.Time{}
+}
+`
+	return os.WriteFile(filepath.Join(dst, "zz_verif_export.go"), []byte(exp), 0644)
 }
 
 func (s *scratch) build(harness string, race bool) string {
@@ -565,6 +637,8 @@ func sameClass(o *outcome, v violation) bool {
 }
 
 type shrinker struct {
+	known    []knownFinding // listed findings: when the target is NOT one of them, neither may a candidate's match be
+	knownID  string         // "" or the id of the finding the target matches
 	bin      string
 	wdir     string
 	perRun   time.Duration
@@ -586,7 +660,19 @@ func (s *shrinker) test(c *caseT) (bool, *outcome) {
 	res := runChild(s.bin, s.wdir, []string{"VSIM_MODE=replay", "VSIM_CASE=" + fn, "VSIM_PROP=" + c.Prop, "VSIM_TIER=" + c.Tier}, s.perRun+30*time.Second, 4)
 	for _, l := range res.lines {
 		if l.T == "done" && l.Outcome != nil {
-			return sameClass(l.Outcome, s.target), l.Outcome
+			for _, x := range l.Outcome.Violations {
+				if x.Property != s.target.Property || x.Class != s.target.Class {
+					continue
+				}
+				id := ""
+				if k := matchKnown(s.known, x); k != nil {
+					id = k.ID
+				}
+				if s.known == nil || id == s.knownID {
+					return true, l.Outcome
+				}
+			}
+			return false, l.Outcome
 		}
 	}
 	// abnormal end: matches only abnormal targets of the same kind
@@ -867,10 +953,16 @@ func cmdRun(args []string) int {
 	var order []string
 	sort.SliceStable(founds, func(i, j int) bool { return founds[i].idx < founds[j].idx })
 	for _, f := range founds {
+		// every violation is matched against the known findings on its own: a listed finding must not hide another
+		// violation that merely falls into the same class
+		k := matchKnown(known, f.v)
 		key := f.v.Property + "/" + f.v.Class
+		if k != nil {
+			key += " [known:" + k.ID + "]"
+		}
 		c := classes[key]
 		if c == nil {
-			c = &cls{first: f, known: matchKnown(known, f.v)}
+			c = &cls{first: f, known: k}
 			classes[key] = c
 			order = append(order, key)
 		}
@@ -891,7 +983,7 @@ func cmdRun(args []string) int {
 				var cs caseT
 				if json.Unmarshal(c.first.caseData, &cs) == nil {
 					sh := &shrinker{bin: plain, wdir: sc.dir, perRun: time.Duration(tp.PerRunS) * time.Second, target: c.first.v,
-						maxAtt: tp.ShrinkAttempts, deadline: time.Now().Add(time.Duration(tp.ShrinkS) * time.Second)}
+						maxAtt: tp.ShrinkAttempts, deadline: time.Now().Add(time.Duration(tp.ShrinkS) * time.Second), known: known, knownID: c.known.ID}
 					if ok, _ := sh.test(&cs); ok {
 						cs2, st := sh.shrink(cs)
 						rf := replayFile{Property: c.first.v.Property, Class: c.first.v.Class, Msg: c.first.v.Msg, Tier: o.tier, Case: cs2, Shrink: st, OpsFound: len(cs.Ops),
@@ -917,7 +1009,7 @@ func cmdRun(args []string) int {
 				rf.OpsFound = len(cs.Ops)
 				bin := sc.build(c.first.harness, c.first.race)
 				sh := &shrinker{bin: bin, wdir: sc.dir, perRun: time.Duration(tp.PerRunS) * time.Second, target: c.first.v,
-					maxAtt: tp.ShrinkAttempts, deadline: time.Now().Add(time.Duration(tp.ShrinkS) * time.Second)}
+					maxAtt: tp.ShrinkAttempts, deadline: time.Now().Add(time.Duration(tp.ShrinkS) * time.Second), known: known}
 				if c.first.race {
 					sh.perRun *= 8
 				}
